@@ -4,5 +4,5 @@ P=$1; ID=$2; shift 2
 git -C /repo diff --quiet || { echo "/repo has uncommitted changes"; exit 2; }
 git -C /repo apply "$P" || exit 2
 trap 'git -C /repo checkout -- .' EXIT
-cd /verif && ./check $ID "$@"
+cd /verif && LSV_PARTIAL=1 ./check $ID "$@"
 echo "check exit code: $?"
